@@ -145,6 +145,21 @@ def generate(api):
     api.grab(t, r"""json:\$\( "\{" \(balanced_braces\(\) / \(!"\}" \[_\]\)\)\* "\}" \)""", rel, "balanced_braces")
     api.grab(t, r'ci\("STORE"\) _\s*event_type:ident\(\) _\s*ci\("FOR"\) _\s*context_id:\(ident\(\) / string_literal\(\)\) _\s*ci\("PAYLOAD"\) _\s*json:json_block\(\)', rel, "store rule")
 
+    # ---------------- REMEMBER (remember.rs): offsets found in an upper-cased copy are used on the original
+    rel = "src/command/parser/commands/remember.rs"
+    t = api.src(rel)
+    emit(f"-- {rel}: the copy that is searched must keep byte positions")
+    if re.search(r"\.to_uppercase\(\)|\.to_lowercase\(\)", t):
+        raise api.Missing(f"{rel}: a Unicode case mapping (to_uppercase/to_lowercase) is used; the model assumes the byte-length preserving to_ascii_uppercase")
+    api.grab(t, r"let upper = remainder\.to_ascii_uppercase\(\);", rel, "upper-cased copy made with to_ascii_uppercase")
+    api.grab(t, r'upper\s*\.rfind\(" AS "\)', rel, 'rfind(" AS ") on the copy')
+    api.grab(t, r"remainder\[\.\.as_idx\]", rel, "slice of the original before AS")
+    api.grab(t, r"remainder\[as_idx \+ 4\.\.\]", rel, "slice of the original after AS")
+    api.grab(t, r'query_part\.to_ascii_uppercase\(\)\.starts_with\("QUERY"\)', rel, "QUERY prefix test")
+    api.grab(t, r"input\.split_at\(prefix\.len\(\)\)", rel, "strip_prefix_ci split")
+    emit("def rememberUpperIsAscii : Bool := true")
+    emit("")
+
     # ---------------- Command variants and dispatcher arms
     rel = "src/command/types.rs"
     t = api.src(rel)
